@@ -52,11 +52,12 @@ var AdversarialKnobs = Knobs{Fail: 18, Nil: 14, WrongKind: 14, Thunk: 12, BadThu
 var CalmKnobs = Knobs{Fail: 3, Nil: 3, WrongKind: 0, Thunk: 20, BadThunk: 0, BadType: 0, NanInf: 0}
 
 type worldGen struct {
-	r     *hx.Rng
-	s     *gq.SchemaDesc
-	k     Knobs
-	byTyp map[string][]int
-	w     *World
+	badPick bool // the last composite value drawn ignored the possible types of its position
+	r       *hx.Rng
+	s       *gq.SchemaDesc
+	k       Knobs
+	byTyp   map[string][]int
+	w       *World
 }
 
 var failKinds = []string{"err", "valerr", "panicErr", "panicStr", "panicOther", "errForeign", "panicForeign"}
@@ -183,7 +184,21 @@ func (g *worldGen) value(te *gq.TypeExpr, depth int) interface{} {
 		n := g.r.Intn(4)
 		out := []interface{}{}
 		for i := 0; i < n; i++ {
-			out = append(out, g.wrapThunk(g.value(te.Of, depth+1)))
+			g.badPick = false
+			item := g.value(te.Of, depth+1)
+			out = append(out, g.wrapThunk(item))
+			if g.badPick && g.r.Chance(3, 5) {
+				// an object of a type that may not be possible here, met twice by the same field plan
+				out = append(out, item)
+			}
+		}
+		// the same item again (the same object reference reaches one field plan twice in one list: a runtime type,
+		// possible or not, is met a second time)
+		if len(out) > 0 && g.pct(20) {
+			at := g.r.Intn(len(out))
+			if m, isMap := out[at].(M); !isMap || m["$thunk"] == nil {
+				out = append(out, out[at])
+			}
 		}
 		// an item whose leaf serialisation panics, between items that serialise (only that item may be nulled)
 		if it := te.Of; g.k.WrongKind > 0 && it.Kind != "list" && g.pct(25) {
@@ -223,6 +238,7 @@ func (g *worldGen) value(te *gq.TypeExpr, depth int) interface{} {
 		cands = g.s.PossibleTypes(td.Name)
 	}
 	if g.pct(g.k.BadType) || len(cands) == 0 {
+		g.badPick = true
 		cands = nil
 		for _, t := range g.s.Types {
 			if t.Kind == "OBJECT" {
